@@ -65,6 +65,8 @@ def v2_case(rng, i):
 
 
 def oracle(c, it):
+    if 'v2rel' in c and it and not it[0].startswith('PARSE-'):
+        return oracle_release(c, it)
     if 'v2' not in c or not it or it[0].startswith('PARSE-'):
         return None
     v = c['v2']
@@ -89,6 +91,81 @@ def oracle(c, it):
             want = sorted(V2KEYS[k] for k in tgt[0])
             if sorted(p for p in presses if p in BASEOUT) != want:
                 return 'chord disabled here: its keys should be delivered individually, saw presses %s' % presses
+    return None
+
+
+RELOUT = {'1': 44, '2': 45, '3': 46, '4': 47}     # chord actions of the release scenarios: plain keys z x c v
+
+
+def v2_release_case(rng, i):
+    """defchordsv2 release rule: the chord's key goes up at the first participant release (first-release) or at the last one
+    (all-released), never earlier - in particular not when some other key is released - and never later"""
+    keys = list(V2KEYS)
+    chords = []
+    for _ in range(rng.randint(1, 3)):
+        ks = tuple(sorted(rng.sample(keys, rng.randint(2, 3))))
+        if ks not in [c[0] for c in chords] and not any(set(ks) < set(c[0]) or set(c[0]) < set(ks) for c in chords):
+            chords.append((ks, str(len(chords) + 1), rng.choice([40, 100]), rng.choice(['first-release', 'all-released']), ()))
+    cfg = '(defcfg concurrent-tap-hold yes%s)\n(defsrc a s d f g h k l)\n(deflayer base a s d f g h k l)\n' \
+          '(defchordsv2 %s)' % (rng.choice(['', '', ' chords-v2-min-idle 30']),
+                               ' '.join('(%s) %s %d %s ()' % (' '.join(c[0]), 'zxcv'[int(c[1]) - 1], c[2], c[3]) for c in chords))
+    tgt = rng.choice(chords)
+    h = ['t200']
+    by = rng.choice([None, 37, 38, 37])         # a bystander key (never a participant) held from before the chord
+    if by:
+        h += ['d%d' % by, 't%d' % rng.choice([100, 300])]
+    order = list(tgt[0]); rng.shuffle(order)
+    for k in order:
+        h += ['d%d' % V2KEYS[k], 't%d' % rng.randint(1, 6)]
+    h += ['t%d' % rng.choice([20, 150])]
+    steps = [('p', k) for k in order]
+    rng.shuffle(steps)
+    if by:
+        steps.insert(rng.randint(0, len(steps)), ('b', by))
+    else:
+        # or a bystander tapped while the chord is held
+        steps.insert(rng.randint(0, len(steps)), ('t', rng.choice([37, 38])))
+    for kind, k in steps:
+        if kind == 'p':
+            h += ['u%d' % V2KEYS[k]]
+        elif kind == 'b':
+            h += ['u%d' % k]
+        else:
+            h += ['d%d' % k, 't%d' % rng.choice([3, 60]), 'u%d' % k]
+        h += ['t%d' % rng.choice([12, 40, 90])]
+    h += ['t300', 'q']
+    return {'id': 'c09-v2rel-%d' % i, 'cfg': cfg, 'hist': h, 'sub': 'ksim',
+            'v2rel': {'target': tgt, 'out': RELOUT[tgt[1]]},
+            'tags': {'mode': 'chords-v2-release', 'rule': tgt[3], 'bystander': 'held' if by else 'tapped'}}
+
+
+def oracle_release(c, it):
+    v = c['v2rel']
+    tgt = v['target']
+    part = [V2KEYS[k] for k in tgt[0]]
+    now = 0
+    rel_times = []
+    for t in c['hist']:
+        if t[0] == 't':
+            now += int(t[1:])
+        elif t[0] == 'u' and int(t[1:]) in part:
+            rel_times.append(now)
+    downs, ups = [], []
+    for l in it:
+        if l.startswith('@'):
+            tick = int(l.split(' ')[0][1:].rstrip('+'))
+            for e in l.split(' ')[1:]:
+                if e == 'd%d' % v['out']:
+                    downs.append(tick)
+                elif e == 'u%d' % v['out']:
+                    ups.append(tick)
+    if len(downs) != 1 or len(ups) != 1:
+        return 'chord (%s) pressed together and then released: its key %d went down %d times and up %d times' % (
+            ' '.join(tgt[0]), v['out'], len(downs), len(ups))
+    want = rel_times[0] if tgt[3] == 'first-release' else rel_times[-1]
+    if not (want <= ups[0] <= want + 12):
+        return '%s chord (%s): its key went up at tick %d, the deciding participant release was at tick %d (participant releases at %s)' % (
+            tgt[3], ' '.join(tgt[0]), ups[0], want, rel_times)
     return None
 
 
@@ -132,6 +209,8 @@ def gen_cases(rng, tier):
         cases.append(v2_case(rng, i))
     for i in range(250 if tier == 'quick' else 8000):
         cases.append(v2_random_case(rng, i))
+    for i in range(150 if tier == 'quick' else 4000):
+        cases.append(v2_release_case(rng, i))
     return cases
 
 
